@@ -157,6 +157,8 @@ package store
 // Cumulative weight up to and including index k.
 //@ fun DCum(s *DenseStore, k int) real := ASum(contents(s.bins), 0, max(0, min(len(s.bins), k - s.offset + 1)))
 
+//@ fun DCumHiD(s *DenseStore, k int) int := max(0, min(len(s.bins), k - s.offset + 1))
+//@ fun DCumArr(s *DenseStore, k int) array_real := lambda j int :: j <= k ? DView(s, j) : 0.0
 // KeyAtRank: the first index whose cumulative weight exceeds the rank (negative ranks count as 0);
 // when no index does, the maximum index.
 //@ func DenseStore.KeyAtRank
@@ -165,6 +167,7 @@ package store
 //@   ensures found: max(rank, 0.0) < s.count ==> DCum(s, result) > max(rank, 0.0) && DCum(s, result - 1) <= max(rank, 0.0)
 //@   ensures positive: max(rank, 0.0) < s.count ==> DView(s, result) > 0.0 && s.minIndex <= result && result <= s.maxIndex
 //@   ensures clamp: max(rank, 0.0) >= s.count ==> result == s.maxIndex
+//@   ensures found-tot: max(rank, 0.0) < s.count ==> Tot(DCumArr(s, result)) > max(rank, 0.0) && Tot(DCumArr(s, result - 1)) <= max(rank, 0.0) using SegmentTot(contents(s.bins), 0, DCumHiD(s, result), DCumArr(s, result), s.offset), SegmentTot(contents(s.bins), 0, DCumHiD(s, result - 1), DCumArr(s, result - 1), s.offset)
 //@   loop 1 invariant rank == max(old(rank), 0.0) && n == ASum(contents(s.bins), 0, $i1) && n <= rank
 //@   hint ASumStep(contents(s.bins), 0, $i1), ASumStep(contents(s.bins), 0, $i1 + 1), ASumMono(contents(s.bins), 0, $i1, len(s.bins)), ASumMono(contents(s.bins), 0, $i1 + 1, len(s.bins)), ASumEmpty(contents(s.bins), 0, 0)
 
